@@ -547,6 +547,7 @@ func run() int {
 		Panic   string   `json:"panic"`
 		Obs     []string `json:"obs"`
 		Missing []string `json:"missing"`
+		Alloc   uint64   `json:"alloc_bytes"`
 		ok      bool
 	}
 	nres := make([]nativeRes, len(files))
@@ -585,6 +586,19 @@ func run() int {
 				}
 				if strings.HasSuffix(df.AssertID, ".no-crash") && nr.Panic != "" {
 					repro = true
+				}
+				if strings.HasSuffix(df.AssertID, ".alloc-bounded") {
+					// the symbolic run predicts an allocation of alloc-elems x elem-bytes for this
+					// input; confirmed when the real code allocated at least that much (and the
+					// amount is far above what a harness allocates by itself), or refused to
+					var elems, eb uint64
+					fmt.Sscanf(df.Msg, "alloc-elems=%d elem-bytes=%d", &elems, &eb)
+					if elems > 0 && eb > 0 && elems*eb >= 1<<20 && elems < 1<<40 && nr.Alloc >= elems*eb {
+						repro = true
+					}
+					if strings.Contains(nr.Panic, "out of range") || strings.Contains(nr.Panic, "out of memory") {
+						repro = true
+					}
 				}
 				if strings.HasSuffix(df.AssertID, ".no-deadlock") {
 					for _, f := range nr.Failed {
